@@ -121,12 +121,14 @@ def r16_5(ctx, counts) -> RuleResult:
     model: Model = ctx.model
     res = RuleResult(
         'R16.5', 'CLOSURE-PRECEDENCE / CONTEXT-SNAPSHOT',
-        '(a) When an inline function is called, its captured variables override the variables '
-        'of the calling context (lexical scoping): in _InlineFunction.__call__ the closure '
-        '`self.variables` is applied onto a copy of the context variables with '
-        '`.update(self.variables)` or as the LAST operand of a dict merge '
-        '(`{**ctx.variables, **self.variables}` / `ctx.variables | self.variables`), never the '
-        'other way round. (b) A function item that binds a dynamic context '
+        '(a) When an inline function is called, its body sees the variables of its closure and '
+        'its parameters, not those of the calling context (lexical scoping): in '
+        '_InlineFunction.__call__ the call context gets a copy of the closure alone '
+        '(`ctx.variables = self.variables.copy()` / `dict(self.variables)` / '
+        '`{**self.variables}`). Overlaying the closure on the caller\'s variables '
+        '(`.update(self.variables)`, `{**ctx.variables, **self.variables}`, '
+        '`ctx.variables | self.variables`) leaves the free variables that are not in the closure '
+        'to the caller\'s scope; the other way round also overrides the captured ones. (b) A function item that binds a dynamic context '
         '(`<item>.context = …` in the evaluate of "#" and of fn:function-lookup) binds a copy '
         '(`copy(context)`), not the live context whose focus moves on.')
     cls = model.find_class('_InlineFunction')
@@ -145,7 +147,12 @@ def r16_5(ctx, counts) -> RuleResult:
             recv = stmt_text(x.func.value)
             res.instances.append(f'{call.key}: {recv}.update({a})')
             if a == f'{me}.variables' and not recv.startswith(me + '.'):
-                res.ok()
+                res.fail(finding('R16.5', call, x, 'caller scope visible in the body',
+                                 f'`{stmt_text(x)[:60]}` overlays the closure on the variables '
+                                 f'of the calling context: a free variable of the body that is '
+                                 f'not in the closure is resolved in the caller\'s scope '
+                                 f'(`let $f := function(){{$z}} return (let $z := 5 return '
+                                 f'$f())` is 5 instead of XPST0008)'))
             elif recv == f'{me}.variables':
                 res.fail(finding('R16.5', call, x, 'closure updated from the caller',
                                  f'`{stmt_text(x)[:60]}` writes the caller\'s variables into the '
@@ -156,8 +163,13 @@ def r16_5(ctx, counts) -> RuleResult:
             if f'{me}.variables' in parts:
                 n += 1
                 res.instances.append(f'{call.key}: dict merge {parts}')
-                if parts[-1] == f'{me}.variables':
+                if parts[-1] == f'{me}.variables' and len(parts) == 1:
                     res.ok()
+                elif parts[-1] == f'{me}.variables':
+                    res.fail(finding('R16.5', call, x, 'caller scope visible in the body',
+                                     f'`{stmt_text(x)[:60]}` merges the closure over the '
+                                     f'variables of the calling context: free variables of the '
+                                     f'body resolve in the caller\'s scope'))
                 else:
                     res.fail(finding('R16.5', call, x, 'closure merged first',
                                      f'`{stmt_text(x)[:60]}`: the captured variables are merged '
@@ -168,11 +180,23 @@ def r16_5(ctx, counts) -> RuleResult:
                 and f'{me}.variables' in (stmt_text(x.left), stmt_text(x.right)):
             n += 1
             if stmt_text(x.right) == f'{me}.variables':
-                res.ok()
+                res.fail(finding('R16.5', call, x, 'caller scope visible in the body',
+                                 f'`{stmt_text(x)[:60]}` merges the closure over the variables '
+                                 f'of the calling context'))
             else:
                 res.fail(finding('R16.5', call, x, 'closure merged first',
                                  f'`{stmt_text(x)[:60]}`: captured variables lose to the '
                                  f'caller\'s'))
+        # replacement form: the call context gets a copy of the closure only
+        if isinstance(x, ast.Assign) and len(x.targets) == 1 \
+                and stmt_text(x.targets[0]).endswith('.variables') \
+                and not stmt_text(x.targets[0]).startswith(me + '.') \
+                and stmt_text(x.value) in (f'{me}.variables.copy()', f'dict({me}.variables)',
+                                           f'{{**{me}.variables}}'):
+            n += 1
+            res.instances.append(f'{call.key}: {stmt_text(x)[:60]} (closure replaces the '
+                                 f'variables of the calling context)')
+            res.ok()
     if n == 0:
         res.fail(finding('R16.5', call, call.node, 'closure not applied',
                          'the captured variables are never applied to the call context'))
